@@ -427,6 +427,10 @@ func GenPlan(prop string, seed uint64, tier string) *Plan {
 		p.Triggers = append(p.Triggers,
 			Trigger{OnMethod: "RequestToJoin", Serving: true, MinMembers: 3, Target: "callee", Kind: "leave", AtStart: true, Delay: time.Duration(r.Int63n(int64(time.Second)))},
 			Trigger{OnMethod: "RequestToJoin", Serving: true, MinMembers: 3, Target: "succ-of-callee", Kind: pick(r, "leave", "join-before"), AtStart: true, Delay: time.Duration(r.Int63n(int64(500 * time.Millisecond))), Spare: 1 + r.Uint64()%1000})
+		if r.Chance(0.5) {
+			// ... or its predecessor leaves through it while the join request is still being served
+			p.Triggers[len(p.Triggers)-1].Target, p.Triggers[len(p.Triggers)-1].Kind = "pred-of-callee", "leave"
+		}
 	}
 	if churn && r.Chance(0.35) {
 		// two changes that meet at the wrap-around pair: the member with the largest identifier starts to leave
